@@ -258,10 +258,18 @@ def check_probe(chk, probe, files, fault, table, dist):
             fault["class"], fault["file"], fault["line"] + 1, None if fault["col"] is None else fault["col"] + 1,
             [(d[0], d[1] + 1 if d[1] is not None else None, d[2] + 1 if d[2] is not None else None, d[3]) for d in ds[:5]]), replay)
         return
-    # spans lie within their file
+    # spans lie within their file; an `unexpected '<text>'` diagnostic (error token) spans exactly that text, an
+    # `expected ...` diagnostic (failed expect) is a point (C04_error_token_reported / C04_expect_reported on the implementation)
     for d in ds:
         if d[4] is not None and not (0 <= d[4] <= d[5] <= d[6]):
             chk.oracle_failure(None, "a diagnostic's span is not within its file: %s" % (d,), replay)
+        elif d[4] is not None and d[0] in files:
+            raw = files[d[0]].encode("utf-8")[d[4]:d[5]].decode("utf-8", "replace")
+            m = re.fullmatch(r"unexpected '(.*)'", d[3], re.S)
+            if m and m.group(1) != raw:
+                chk.oracle_failure(None, "an error token's diagnostic does not span the token's text: %r vs %r" % (d[3], raw), replay)
+            if re.match(r"expected (expression|closing delimiter|config map)", d[3]) and d[4] != d[5]:
+                chk.oracle_failure(None, "an `expected ..` diagnostic is not a point: %s" % (d,), replay)
     # tie: the span the model predicts (Gen.ErrSpans source applied to the construct's parts) is the reported span
     kind = SEMANTIC.get(fault["class"])
     if kind:
